@@ -42,7 +42,7 @@ class Entry:
 COUPLING = ["affine", "additive", "plinear", "pquadratic", "pcubic", "prq", "umnn"]
 AUTOREG = ["affine", "plinear", "pquadratic", "pcubic", "prq", "umnn"]
 LINEAR = ["LU", "QR", "SVD", "Naive", "Conv", "Householder"]
-NONLIN = ["Exp", "Tanh", "LogTanh", "LeakyReLU", "Sigmoid", "SigmoidLearned", "Logit", "GLU", "CauchyCDF",
+NONLIN = ["Exp", "Tanh", "LogTanh", "LeakyReLU", "Sigmoid", "SigmoidLearned", "Logit", "GLU", "CauchyCDF", "CauchyCDFInverse",
           "PLCDF", "PQCDF", "PCCDF", "PRQCDF", "CompositeCDF"]
 SIMPLE = ["Identity", "PointwiseAffine", "AffineTransform", "RandomPermutation", "ReversePermutation", "Permutation",
           "Squeeze", "ActNorm", "ActNorm4", "BatchNorm"]
@@ -146,7 +146,7 @@ def _gen(fam, rng, allow_slow, depth):
         return {"family": fam, "variant": v, "F": F, "parts": parts, "net": _net(rng)}
     if fam == "dist":
         v = rng.pick(DISTS)
-        return {"family": fam, "variant": v, "F": rng.pick([1, 2, 3]), "ctx": 2, "encoder": rng.chance(0.6),
+        return {"family": fam, "variant": v, "F": rng.pick([1, 2, 3]), "ctx": 2, "encoder": rng.chance(0.6), "mlp": rng.chance(0.4),
                 "components": rng.pick([1, 2]), "hidden": 6, "random_mask": rng.chance(0.3), "shape2": rng.chance(0.2)}
     if fam == "flow":
         v = rng.pick(FLOWS)
@@ -157,7 +157,7 @@ def _gen(fam, rng, allow_slow, depth):
         if not s["residual"]:
             s["random_masks"] = rng.chance(0.6)
         if v == "Flow":
-            s.update(ctx=rng.pick([0, 2]), embed=rng.chance(0.5), base=rng.pick(["normal", "condnormal", "normal"]),
+            s.update(ctx=rng.pick([0, 2]), embed=rng.chance(0.5), mlp=rng.chance(0.4), base=rng.pick(["normal", "condnormal", "normal"]),
                      parts=[rng.pick(["perm", "lu", "affine_coupling", "maf", "actnorm", "prq", "svd", "squash"]) for _ in range(rng.pick([1, 2, 3]))],
                      net=_net(rng))
             if s["base"] == "condnormal" and not s["ctx"]:
@@ -212,7 +212,7 @@ def domains(spec):
     if fam == "nonlin":
         if v in ("Sigmoid", "SigmoidLearned", "CauchyCDF"):
             return "real", "unit"
-        if v == "Logit":
+        if v in ("Logit", "CauchyCDFInverse"):
             return "unit", "real"
         if v == "Tanh":
             return "real", "tanh"
@@ -397,6 +397,8 @@ def _build(spec):
             shape = (1,)
         elif v == "CauchyCDF":
             t, idom = NL.CauchyCDF(), "unit"
+        elif v == "CauchyCDFInverse":
+            t, fdom = NL.CauchyCDFInverse(), "unit"
         elif v in ("PLCDF", "PQCDF", "PCCDF", "PRQCDF"):
             cls = {"PLCDF": NL.PiecewiseLinearCDF, "PQCDF": NL.PiecewiseQuadraticCDF, "PCCDF": NL.PiecewiseCubicCDF,
                    "PRQCDF": NL.PiecewiseRationalQuadraticCDF}[v]
@@ -474,7 +476,7 @@ def _build(spec):
         if v == "StandardNormal":
             return Entry(D.StandardNormal(list(shape)), "dist", shape, sample=True)
         if v == "ConditionalDiagonalNormal":
-            enc = torch.nn.Linear(spec["ctx"], 2 * n) if spec["encoder"] else None
+            enc = _encoder(spec, spec["ctx"], 2 * n) if spec["encoder"] else None
             c = (spec["ctx"],) if spec["encoder"] else (2 * n,)
             return Entry(D.ConditionalDiagonalNormal(list(shape), context_encoder=enc), "dist", shape, c, sample=True, ctx_required=True)
         if v == "DiagonalNormal":
@@ -484,7 +486,7 @@ def _build(spec):
                 d.log_std_.add_(0.3 * torch.randn(1, n))
             return Entry(d, "dist", (n,), sample=False)
         if v == "Bernoulli":
-            enc = torch.nn.Linear(spec["ctx"], n) if spec["encoder"] else None
+            enc = _encoder(spec, spec["ctx"], n) if spec["encoder"] else None
             c = (spec["ctx"],) if spec["encoder"] else (n,)
             return Entry(D.ConditionalIndependentBernoulli(list(shape), context_encoder=enc), "dist", shape, c, fdom="binary",
                          sample=True, ctx_required=True)
@@ -517,11 +519,20 @@ def _build(spec):
                 base = D.ConditionalDiagonalNormal([F], context_encoder=torch.nn.Linear(emb_out, 2 * F))
             else:
                 base = D.StandardNormal([F])
-            emb = torch.nn.Linear(ctx, emb_out) if (ctx and spec["embed"]) else None
+            emb = _encoder(spec, ctx, emb_out) if (ctx and spec["embed"]) else None
             f = FL.Flow(T.CompositeTransform(parts), base, embedding_net=emb)
             return Entry(f, "flow", (F,), (ctx,) if ctx else None, sample=True, ctx_required=bool(ctx))
         raise HarnessError(v)
     raise HarnessError(fam)
+
+
+def _encoder(spec, n_in, n_out):
+    torch = core.boot()
+    if spec.get("mlp"):
+        from nflows.nn import nets
+
+        return nets.MLP([n_in], [n_out], hidden_sizes=[5, 4])
+    return torch.nn.Linear(n_in, n_out)
 
 
 def _part(kind, F, net, ctx=0):
